@@ -41,6 +41,10 @@ def presText : Presence → String
 /-- `(k, v)` replaces every pair with key `k` (a derived class member hides the base class member) -/
 def setKV (k v : String) (kvs : List KV) : List KV := (k, v) :: kvs.filter (fun kv => kv.1 != k)
 
+/-- every pair with key `k` removed (a derived class member declared `= delete` hides the
+    base class member and cannot be used) -/
+def eraseKV (k : String) (kvs : List KV) : List KV := kvs.filter (fun kv => kv.1 != k)
+
 def depr (a : Attrs) : List KV :=
   match a.deprecated with
   | some d => [("deprecated", num d)]
